@@ -379,6 +379,17 @@ func drawClientHeaders(rt *rapid.T) http.Header {
 	if rapid.Bool().Draw(rt, "h-weird") {
 		h["x-lower-case"] = []string{""}
 	}
+	// headers that mean something to some hop: a protocol upgrade the handler may decline, expectations, transfer hints
+	if rapid.IntRange(0, 3).Draw(rt, "h-upgrade") == 0 {
+		h.Set("Upgrade", rapid.SampledFrom([]string{"websocket", "h2c"}).Draw(rt, "upgrade-to"))
+		h.Set("Connection", rapid.SampledFrom([]string{"Upgrade", "upgrade", "keep-alive, Upgrade"}).Draw(rt, "connection"))
+	}
+	if rapid.IntRange(0, 5).Draw(rt, "h-expect") == 0 {
+		h.Set("Expect", "100-continue")
+	}
+	if rapid.IntRange(0, 5).Draw(rt, "h-te") == 0 {
+		h.Set("Te", "trailers")
+	}
 	return h
 }
 
